@@ -428,6 +428,10 @@ func exploreC(tier string, chunk, chunks int) *unitStats {
 		if i%chunks != chunk {
 			continue
 		}
+		if outOfTime() {
+			u.CapHit = true
+			break
+		}
 		r, err := runCaseC(cs)
 		if err != nil {
 			u.HarnessError = err.Error()
